@@ -55,6 +55,8 @@ type MSeries struct {
 
 const lenUnit = 160 // bytes per abstract length unit
 
+const getterBatch = 100 // LogQLPlan!GetterBatch: rows per slice of shared.ClickhouseGetterPlanner.ScanMatrix
+
 var linearNumPool = []float64{1, 0.25, 2.5, 4}
 
 func fnum(x float64) string { return strconv.FormatFloat(x, 'f', -1, 64) }
@@ -386,6 +388,22 @@ func runMetricCase(w *World, p *prepared) *caseOutcome {
 		if c.OrdObs {
 			// the specification says that applying the threshold to the operand of the k-selection gives another answer
 			out.tags = append(out.tags, "topcmp-order-observable:"+mq.TopFn+":"+planningPath(c, mq))
+		}
+	}
+	// the slices the rows of the last statement reach the Go post-processors in (shared.ClickhouseGetterPlanner.ScanMatrix
+	// cuts every getterBatch rows): observed on the real statement, foretold by the specification for fragment B
+	if n := len(obs.Rows); n > 0 && obs.Code == 200 {
+		rows := obs.Rows[n-1]
+		if rows > getterBatch {
+			out.tags = append(out.tags, "getter-slices>1:"+planningPath(c, mq))
+			if rows%getterBatch != 0 {
+				out.tags = append(out.tags, "getter-slices>1")
+			}
+		}
+		if c.Frag == "B" && (c.NRows > getterBatch) != (rows > getterBatch) {
+			out.infra = fmt.Sprintf("fragment B: LogQLPlan!PlanMetricRows has %d rows, the statement of the real planner delivered %d: "+
+				"not on the same side of the getter's slice length", c.NRows, rows)
+			return out
 		}
 	}
 	switch {
